@@ -12,6 +12,7 @@ import (
 type caseT struct {
 	R *rcaseT `json:",omitempty"`
 	B *bcaseT `json:",omitempty"`
+	Z *scaseT `json:",omitempty"`
 }
 
 func main() {
@@ -38,6 +39,17 @@ func main() {
 				fmt.Fprintln(w, emitRedact(fmt.Sprintf("c20-r-%d-%d", a.Seed, i), genRedact(r, true), st))
 			}
 		}
+		// stress histories: a fixed time budget per tier, spread over several histories
+		nStress, millis := 6, 400
+		if a.Tier == "thorough" {
+			nStress, millis = 10, 1200
+		}
+		if a.N == 0 {
+			nStress = 0
+		}
+		for i := 0; i < nStress; i++ {
+			fmt.Fprintln(w, emitStress(fmt.Sprintf("c20-z-%d-%d", a.Seed, i), genStress(r, millis), st))
+		}
 		st.Emit(w)
 	case "replay":
 		for _, line := range hx.StdinLines() {
@@ -52,6 +64,8 @@ func main() {
 				fmt.Fprintln(w, emitRedact(id, *k.R, nil))
 			case k.B != nil:
 				fmt.Fprintln(w, emitBuffer(id, *k.B, nil, nil))
+			case k.Z != nil:
+				fmt.Fprintln(w, emitStress(id, *k.Z, nil))
 			}
 		}
 	}
